@@ -130,6 +130,100 @@ func main() {
 			t.Note(fmt.Sprintf("every valid prefix (open or closed) of depth<=%d x every header of Fin x Rsv{0,1,2,4,7} x OpCode x Masked x Len{0,1,125,126,65536} that the rule list rejects in the state the prefix leaves; offender payload = marker bytes, then a canary message", D-1))
 		})
 
+		// The fragmentation state must survive an error that leaves the byte stream in sync: a
+		// handler error on an interleaved control frame, or a transient transport error exactly
+		// at a frame boundary, while the caller is discarding the message and then carries on.
+		r.Part("E3-state-after-recoverable-error", func(t *explore.T) {
+			for _, side := range []streams.Side{streams.Server, streams.Client} {
+				for _, firstOp := range []byte{1, 2} {
+					for _, cause := range []string{"handler-error-on-empty-ping", "transient-error-at-frame-boundary"} {
+						for _, offOp := range []byte{1, 2} {
+							for _, offFin := range []bool{true, false} {
+								for _, consume := range []string{"Discard", "Read"} {
+									side, firstOp, cause, offOp, offFin, consume := side, firstOp, cause, offOp, offFin, consume
+									t.Do(func() string {
+										return fmt.Sprintf("%s first=op%x- cause=%s then offender=op%x fin=%v consume=%s", side, firstOp, cause, offOp, offFin, consume)
+									}, func() *explore.Fail {
+										mk := func(o byte, fin bool, p []byte) []byte {
+											return refmodel.Frame{H: refmodel.Hdr{Fin: fin, Op: o, Masked: side == streams.Server, Mask: [4]byte{4, 3, 2, 1}}, Payload: p}.Wire()
+										}
+										first := mk(firstOp, false, []byte("a"))
+										var mid []byte
+										if cause == "handler-error-on-empty-ping" {
+											mid = mk(9, true, nil)
+										}
+										data := append(append(append(append([]byte{}, first...), mid...), mk(offOp, offFin, marker[:8])...), canary(side)...)
+										src := &hiccupSrc{data: data, at: -1}
+										if cause == "transient-error-at-frame-boundary" {
+											src.at = len(first)
+										}
+										rd := &wsutil.Reader{Source: src, State: drivers.State(side)}
+										errHandler := fmt.Errorf("handler says no")
+										fired := false
+										rd.OnIntermediate = func(h ws.Header, r io.Reader) error {
+											if !fired {
+												fired = true
+												return errHandler
+											}
+											return nil
+										}
+										if _, err := rd.NextFrame(); err != nil {
+											return explore.Failf("harness-first-frame", "%v", err)
+										}
+										var got []byte
+										var lastErr error
+										sawRecoverable := false
+										for i := 0; i < 8; i++ {
+											var err error
+											if consume == "Discard" {
+												err = rd.Discard()
+											} else {
+												var p []byte
+												p, err = io.ReadAll(rd)
+												got = append(got, p...)
+											}
+											lastErr = err
+											if err == errHandler || err == errTransient {
+												sawRecoverable = true
+												continue // the caller carries on
+											}
+											if err != nil {
+												break
+											}
+											// the message was reported complete: start the next one
+											h, err := rd.NextFrame()
+											if err != nil {
+												lastErr = err
+												break
+											}
+											p, err := io.ReadAll(rd)
+											got = append(got, p...)
+											_ = h
+											lastErr = err
+											if err != nil {
+												break
+											}
+										}
+										if !sawRecoverable {
+											return explore.Failf("harness-no-recoverable-error", "last err %v", lastErr)
+										}
+										if hasTaint(got) {
+											return explore.Failf("offender-delivered-after-recoverable-error:"+cause, "data %q, last err %v", got, lastErr)
+										}
+										if pe, ok := lastErr.(ws.ProtocolError); !ok || pe != ws.ErrProtocolContinuationExpected {
+											return explore.Failf("offender-not-rejected-after-recoverable-error:"+cause, "err=%v", lastErr)
+										}
+										t.Outcome("rejected")
+										return nil
+									})
+								}
+							}
+						}
+					}
+				}
+			}
+		})
+
 		r.Part("E2b-size-limit-control-frames", func(t *explore.T) {
 			for _, side := range []streams.Side{streams.Server, streams.Client} {
 				for _, inMsg := range []bool{false, true} {
@@ -287,6 +381,33 @@ func main() {
 			}
 		})
 	})
+}
+
+var errTransient = fmt.Errorf("transient transport error")
+
+// hiccupSrc returns (0, errTransient) once when its offset reaches at, then carries on.
+type hiccupSrc struct {
+	data []byte
+	off  int
+	at   int
+	done bool
+}
+
+func (h *hiccupSrc) Read(p []byte) (int, error) {
+	if h.off == h.at && !h.done {
+		h.done = true
+		return 0, errTransient
+	}
+	if h.off >= len(h.data) {
+		return 0, io.EOF
+	}
+	end := len(h.data)
+	if h.at > h.off && !h.done && h.at < end {
+		end = h.at
+	}
+	n := copy(p, h.data[h.off:end])
+	h.off += n
+	return n, nil
 }
 
 func judge(t *explore.T, d drivers.Driver, res *drivers.Result, src *env.Src, must, upper []drivers.Event, broken map[string]bool, hdrEnd int) *explore.Fail {
